@@ -96,13 +96,18 @@ func (self ValueString) Fields() (map[string]*Value, *VmInterrupt) {
 			return NewValueInt(int64(distance)), nil
 		}),
 		"substring": NewValueBuiltinFunction(func(executor Executor, cancelCtx *context.Context, span errors.Span, args ...Value) (*Value, *VmInterrupt) {
+			runes := []rune(self.Inner)
 			upper := args[0].(ValueInt).Inner
+			// enable index wrapping (-1 = len-1)
+			if upper < 0 {
+				upper += int64(len(runes))
+			}
 
-			if upper >= int64(len(self.Inner)) {
+			if upper < 0 || upper >= int64(len(runes)) {
 				return nil, NewVMThrowInterrupt(span, "index out of range")
 			}
 
-			sub := self.Inner[0:upper]
+			sub := string(runes[0:upper])
 			return NewValueString(sub), nil
 		}),
 		"parse_json": NewValueBuiltinFunction(func(executor Executor, cancelCtx *context.Context, span errors.Span, args ...Value) (*Value, *VmInterrupt) {
